@@ -10,6 +10,7 @@ import (
 	"os"
 	"os/exec"
 	"path/filepath"
+	"runtime/pprof"
 	"sort"
 	"strings"
 	"time"
@@ -82,9 +83,18 @@ func main() {
 		verifDir = d
 	}
 	os.Setenv("PATH", go126Bin+":"+os.Getenv("PATH"))
+	if pf := os.Getenv("VERIF_CPUPROFILE"); pf != "" {
+		f, err := os.Create(pf)
+		if err == nil {
+			pprof.StartCPUProfile(f)
+			defer pprof.StopCPUProfile()
+		}
+	}
 	switch os.Args[1] {
 	case "check":
-		os.Exit(cmdCheck(os.Args[2:]))
+		code := cmdCheck(os.Args[2:])
+		pprof.StopCPUProfile()
+		os.Exit(code)
 	case "replay":
 		os.Exit(cmdReplay(os.Args[2:]))
 	default:
